@@ -143,6 +143,11 @@ class Empty(Expression):
     def __str__(self) -> str:
         return "empty"
 
+    def __repr__(self) -> str:
+        # `empty` evaluates to itself, so it can end up inside an array or hash that
+        # is rendered with the `repr` of its items.
+        return "empty"
+
     def __hash__(self) -> int:
         return hash(self.__class__)
 
@@ -169,6 +174,9 @@ class Blank(Expression):
         return isinstance(other, Blank)
 
     def __str__(self) -> str:
+        return "blank"
+
+    def __repr__(self) -> str:
         return "blank"
 
     def __hash__(self) -> int:
